@@ -3,7 +3,7 @@
 # sed edit of one file of /repo; the named function must NOT verify any more on a scratch copy.
 # A mutation that still verifies is an engine/contract hole (vacuity, too weak a contract).
 # usage: selftest/run.sh            (about 15 minutes; needs bin/govc)
-# The 53 confirmed agent-written changes under /verif/seeded are the second half of the corpus
+# The 55 confirmed agent-written changes under /verif/seeded are the second half of the corpus
 # (seeded_run.sh <name>).
 cd /verif
 fail=0
